@@ -11,18 +11,40 @@ from common import Undecided
 NAME = "pairs"
 RLIMIT = 100
 
-MODEL = parts.value_model(True) + r"""
+MODEL = r"""
 global size_of usize == 8;   // 64-bit target
 pub uninterp spec fn string_bytes(s: Seq<char>) -> Seq<u8>;
 // ascending-key iteration of an object (std BTreeMap): ASSUMED contract
 pub uninterp spec fn entries(m: Map<Seq<char>, SourcedValue>) -> Seq<(Seq<char>, SourcedValue)>;
+// The alias `Object` is copied from the repository; both std maps it could name have a shadow.  Only
+// the ordered map's iteration is a function of its contents (ascending keys, ASSUMED std contract).
+#[verifier::external_body]
+#[verifier::reject_recursive_types(K)]
+#[verifier::accept_recursive_types(V)]
+pub struct HashMap<K, V> { _p: core::marker::PhantomData<(K, V)> }
+impl HashMap<String, SourcedValue> {
+    pub uninterp spec fn view(&self) -> Map<Seq<char>, SourcedValue>;
+}
+pub trait ObjMap: Sized {
+    spec fn mview(&self) -> Map<Seq<char>, SourcedValue>;
+    spec fn ordered() -> bool;
+}
+impl ObjMap for BTreeMap<String, SourcedValue> {
+    open spec fn mview(&self) -> Map<Seq<char>, SourcedValue> { self@ }
+    open spec fn ordered() -> bool { true }
+}
+impl ObjMap for HashMap<String, SourcedValue> {
+    open spec fn mview(&self) -> Map<Seq<char>, SourcedValue> { self@ }
+    open spec fn ordered() -> bool { false }
+}
 // D5: `props.iter().map(|(key, value)| (new_str_from_string(key.to_string()), value.clone())).collect()`
 #[verifier::external_body]
-pub fn object_pairs(m: &Object) -> (r: Vec<(SourcedValue, SourcedValue)>)
+pub fn object_pairs<M: ObjMap>(m: &M) -> (r: Vec<(SourcedValue, SourcedValue)>)
     ensures
-        r@.len() == entries(m@).len(),
-        forall|i: int| 0 <= i < r@.len() ==> (#[trigger] r@[i]).1 == entries(m@)[i].1
-            && r@[i].0.source is None && (r@[i].0.v matches Value::Str(bs) && bs@ == string_bytes(entries(m@)[i].0)),
+        r@.len() == m.mview().len(),
+        M::ordered() ==> r@.len() == entries(m.mview()).len(),
+        M::ordered() ==> forall|i: int| 0 <= i < r@.len() ==> (#[trigger] r@[i]).1 == entries(m.mview())[i].1
+            && r@[i].0.source is None && (r@[i].0.v matches Value::Str(bs) && bs@ == string_bytes(entries(m.mview())[i].0)),
 { unimplemented!() }
 
 pub open spec fn int_value(i: int) -> SourcedValue { SourcedValue{v: Value::Int(i as i64), source: None} }
@@ -105,10 +127,15 @@ def build(read):
                              "pairs.push((value::new_int(n), value::new_str(vec![*c])));\n"
                              "                proof { let k = pairs@.len() - 1; assert(pairs@[k].1.v->Str_0@ == seq![s@[k]]); }\n",
                              "value_to_pairs: proof hint (one-byte string)")
+    alias = parts.copy_item(b, read, "src/eval/value.rs", "type", "Object")
+    vm = parts.value_model(True)
+    if vm.count("pub type Object = BTreeMap<String, SourcedValue>;") != 1:
+        raise Undecided("value model: Object alias anchor lost")
+    vm = vm.replace("pub type Object = BTreeMap<String, SourcedValue>;", "// ---- verbatim from src/eval/value.rs\n" + alias)
     b.text = assemble([
         "// GENERATED on every run by /verif/verus/pairs.py from /repo's working tree - do not edit",
         parts.HEADER.replace("use std::collections::HashSet;\n", ""), parts.OPAQUE_SCOPES,
-        sel, err_text, parts.ast_text(b, read), parts.value_items(b, read), MODEL,
+        sel, err_text, parts.ast_text(b, read), parts.value_items(b, read), vm, MODEL,
         parts.value_ctors(b, read, ["new_val_ref_with_no_source", "new_str", "new_int", "new_list", "new_str_from_string"]),
         "// ---- function under contract (verbatim body; contract text inserted at anchors)",
         f, parts.FOOTER,
